@@ -7,6 +7,9 @@ import (
 	"fmt"
 	"math"
 	"sort"
+	"strings"
+
+	"github.com/deadsy/sdfx/obj"
 
 	"github.com/deadsy/sdfx/sdf"
 	v2 "github.com/deadsy/sdfx/vec/v2"
@@ -271,7 +274,7 @@ func checkC01(c *Ctx) {
 	}
 	var jobs []job
 	for _, e := range catalog {
-		if e.Unbounded {
+		if e.Unbounded || c01DefectClass(e.Name) {
 			continue
 		}
 		for i := 0; i < perEntry; i++ {
@@ -285,6 +288,10 @@ func checkC01(c *Ctx) {
 		sh, ok := e.Gen(r)
 		if !ok {
 			c.Count("catalog_out_of_domain_draws", 1)
+			return
+		}
+		if strings.Contains(sh.Desc, "obj.DrainCover") && strings.Contains(sh.Desc, "CrossBarWeb:true") && !strings.Contains(sh.Desc, "CrossBarWidth:0 ") {
+			c.Count("catalog_draws_in_known_defect_class_skipped", 1) // see c01Pinned: draincover-web-polymin-fillet
 			return
 		}
 		b := budget
@@ -359,9 +366,38 @@ func judgeBox(c *Ctx, res probeResult, name, desc string, box any, extra map[str
 	}
 }
 
-// c01Pinned keeps the inputs of repaired defects in the workload forever.
+// c01DefectClass names catalogue entries that lie wholly inside a recorded known finding: triangle-mesh import decides
+// the sign from the plane of the nearest of N neighbouring triangles, which is wrong near sharp edges and far from the
+// mesh for any N (documented "artifacts"); the class is represented by pinned inputs in c01Pinned instead.
+func c01DefectClass(name string) bool {
+	return strings.HasPrefix(name, "obj.ImportSTL") || name == "obj.ImportTriMesh"
+}
+
+// c01Pinned keeps the inputs of repaired defects and of known findings in the workload forever (seed-independent).
 func c01Pinned(c *Ctx) {
-	r := c.Rng("pinned")
+	r := newRng(1, "c01-pinned")
+	// known finding: mesh import, few neighbours
+	if s, err := obj.ImportSTL("/repo/files/bottle.stl", 8, 3, 5); err == nil && s != nil {
+		res := probeShape(c, newRng(1, "c01-pinned-bottle"), nil, s, 20000)
+		c.Eval(res.probes)
+		if res.witness != nil {
+			c.Violate("importstl-bottle-neighbours-8", fmt.Sprintf("box-leak obj.ImportSTL(bottle.stl, numNeighbors=8): Evaluate=%g at %v, %g outside the box", res.witness.F, res.witness.P, res.witness.Outside),
+				map[string]any{"witness": res.witness})
+		}
+	}
+	// known finding: PolyMin fillet of the drain cover's cross web bulges above the wall top
+	dk := obj.DrainCoverParms{WallDiameter: 101.14571309685078, WallHeight: 13.546199408481355, WallThickness: 7.31617245579278, WallDraft: 0.036490959763739915,
+		OuterWidth: 14.773456046144528, InnerWidth: 8.746494667391856, CoverThickness: 6.486296403219078, GrateNumber: 9, GrateWidth: 0.5981300742253685,
+		GrateDraft: 0.08520009021000541, CrossBarWidth: 0.4050014383478754, CrossBarWeb: true}
+	if s, err := obj.DrainCover(&dk); err == nil && s != nil {
+		bb := s.BoundingBox()
+		p := v3.Vec{X: 46.472223703791265, Y: 0.37762758975440475, Z: bb.Max.Z + 1e-3}
+		c.Eval(1)
+		if f := s.Evaluate(p); f < -1e-9*bb.Size().Length() {
+			c.Violate("draincover-web-polymin-fillet", fmt.Sprintf("box-leak obj.DrainCover(CrossBarWeb, WallThickness=7.3): Evaluate=%g at %v, 1e-3 above the box top %g", f, p, bb.Max.Z),
+				map[string]any{"parms": dk, "p": p, "f": f})
+		}
+	}
 	// twisted extrusion of a profile whose far corner is its Min corner
 	b := sdf.Transform2D(sdf.Box2D(v2.Vec{X: 2, Y: 2}, 0), sdf.Translate2d(v2.Vec{X: -4.5, Y: -4.5}))
 	for _, s := range []struct {
